@@ -410,15 +410,15 @@ fn build(modes: &[Mode]) -> Built {
 
 fn to_msg(k: &K, b: &Built) -> CosmosMsg<XMsg> {
     match k {
-        K::BankSend(n) => BankMsg::Send { to_address: b.other.to_string(), amount: vec![coin(1 + *n as u128, "eth")] }.into(),
-        K::BankBurn(n) => BankMsg::Burn { amount: vec![coin(1 + *n as u128, "eth")] }.into(),
+        K::BankSend(n) => BankMsg::Send { to_address: b.other.to_string(), amount: vec![coin(amt(*n), "eth")] }.into(),
+        K::BankBurn(n) => BankMsg::Burn { amount: vec![coin(amt(*n), "eth")] }.into(),
         K::Custom(t) => CosmosMsg::Custom(XMsg { tag: *t, fail: false }),
-        K::Delegate(n) => StakingMsg::Delegate { validator: "validator1".into(), amount: coin(1 + *n as u128, "TOKEN") }.into(),
-        K::Undelegate(n) => StakingMsg::Undelegate { validator: "validator1".into(), amount: coin(1 + *n as u128, "TOKEN") }.into(),
-        K::Redelegate(n) => StakingMsg::Redelegate { src_validator: "validator1".into(), dst_validator: "validator2".into(), amount: coin(1 + *n as u128, "TOKEN") }.into(),
+        K::Delegate(n) => StakingMsg::Delegate { validator: "validator1".into(), amount: coin(amt(*n), "TOKEN") }.into(),
+        K::Undelegate(n) => StakingMsg::Undelegate { validator: "validator1".into(), amount: coin(amt(*n), "TOKEN") }.into(),
+        K::Redelegate(n) => StakingMsg::Redelegate { src_validator: "validator1".into(), dst_validator: "validator2".into(), amount: coin(amt(*n), "TOKEN") }.into(),
         K::SetWithdraw => DistributionMsg::SetWithdrawAddress { address: b.other.to_string() }.into(),
         K::WithdrawReward => DistributionMsg::WithdrawDelegatorReward { validator: "validator1".into() }.into(),
-        K::FundCommunity(n) => DistributionMsg::FundCommunityPool { amount: vec![coin(1 + *n as u128, "TOKEN")] }.into(),
+        K::FundCommunity(n) => DistributionMsg::FundCommunityPool { amount: vec![coin(amt(*n), "TOKEN")] }.into(),
         K::IbcTransfer(memo) => IbcMsg::Transfer { channel_id: "channel-7".into(), to_address: "remote".into(), amount: coin(3, "eth"), timeout: IbcTimeout::with_timestamp(Timestamp::from_seconds(99)), memo: Some(hex::encode(&memo.0)) }.into(),
         K::IbcSendPacket(d) => IbcMsg::SendPacket { channel_id: "channel-9".into(), data: Binary::from(d.0.clone()), timeout: IbcTimeout::with_timestamp(Timestamp::from_seconds(7)) }.into(),
         K::IbcClose => IbcMsg::CloseChannel { channel_id: "channel-1".into() }.into(),
@@ -476,12 +476,24 @@ fn expected_qlog(q: &QueryRequest<XQuery>) -> (usize, &'static str, String) {
     }
 }
 
+/// amounts 1, 2, 3 and - for n = 3 - zero: a zero amount is a payload like any other; whether it is
+/// acceptable is the receiving module's decision, nobody else's
+fn amt(n: u8) -> u128 {
+    if n == 3 {
+        0
+    } else {
+        1 + n as u128
+    }
+}
+
 /// Does the module in `slot` accept this message (given how the case funds its senders)?
 fn accepts(mode: Mode, k: &K) -> bool {
     match mode {
         Mode::Accept => true,
         Mode::Fail => false,
         Mode::Default => match k {
+            // the real keepers refuse zero amounts
+            K::BankSend(3) | K::BankBurn(3) | K::Delegate(3) => false,
             // senders are funded; the real keepers accept these, and only these are sent to them
             K::BankSend(_) | K::BankBurn(_) | K::Delegate(_) | K::SetWithdraw => true,
             _ => false,
@@ -746,7 +758,8 @@ impl RoutingCheck {
                     }
                 } else if !ok {
                     // caught: the module's marker and nothing of the failed message may remain
-                    let leaked = after.iter().any(|(key, _)| key.starts_with(b"\x00\x07recmark") && key.ends_with(eslot.as_bytes()));
+                    // (a self-call with funds has legitimately gone through the bank module before)
+                    let leaked = !(self_funded && eslot == "bank") && after.iter().any(|(key, _)| key.starts_with(b"\x00\x07recmark") && key.ends_with(eslot.as_bytes()));
                     ensure!(!leaked, "C17:failed-module-left-state", "{:?}: failing {} module's write survived although the failure was caught by reply", k, eslot);
                 }
                 // --- the module's answer is what the caller sees
@@ -867,7 +880,7 @@ impl RoutingCheck {
             }
             What::Sudo(s) => {
                 let (slot, msg): (usize, SudoMsg) = match s {
-                    S::BankMint(n) => (0, SudoMsg::Bank(BankSudo::Mint { to_address: b.other.to_string(), amount: vec![coin(1 + *n as u128, "eth")] })),
+                    S::BankMint(n) => (0, SudoMsg::Bank(BankSudo::Mint { to_address: b.other.to_string(), amount: vec![coin(amt(*n), "eth")] })),
                     S::Slash(p) => (2, SudoMsg::Staking(StakingSudo::Slash { validator: "validator1".into(), percentage: Decimal::percent((*p % 101) as u64) })),
                 };
                 let mode = case.modes[slot];
@@ -879,7 +892,8 @@ impl RoutingCheck {
                 };
                 let log = take_rlog();
                 ensure!(log.len() == 1 && log[0].slot == SLOTS[slot] && log[0].op == "sudo", "C17:sudo-not-delivered", "sudo {:?}: log {:?}", s, log);
-                let ok = mode != Mode::Fail;
+                // (the real bank keeper refuses to mint nothing)
+                let ok = mode != Mode::Fail && !(mode == Mode::Default && matches!(s, S::BankMint(3)));
                 ensure!(r.is_ok() == ok, "C17:sudo-result", "sudo {:?} with {:?} module: {:?}", s, mode, r);
                 if !ok {
                     let after = scan(b.app.storage());
